@@ -1,7 +1,7 @@
 SPECIFICATION Spec
 CONSTANTS
   Cfgs <- MCT_Cfgs
-  T = 12
+  T = 10
   GradClasses <- MCT_Grad
   ErrClasses <- MCT_Err
 INVARIANT TypeOK
